@@ -37,7 +37,7 @@ def goals(tier):
     for fam in ("generic", "kit", "registry"):
         for z in ("group1", "group2", "group3", "match-flank", "outside-match"):
             g.append("{}:origin-in-{}".format(fam, z))
-    return g + ["generic:part-class", "generic:vector", "kit:vector", "registry:vector", "rejected-stays-rejected"]
+    return g + ["generic:part-class", "generic:vector", "kit:vector", "registry:vector", "rejected-stays-rejected", "generic:self-overlapping-site"]
 
 
 # ---------------------------------------------------------------------------------------------
@@ -198,6 +198,14 @@ def unit_generic(st, enz):
                      (part_class(enz, "module", (ovs[1], ovs[0])), mods[0], "part-module-wrong-signature"),
                      (V, mods[0], "module-as-vector")]
             st.goal("generic:part-class")
+            # content: a partial copy of the site overlapping the real upstream site (possible when the site has a border,
+            # e.g. CGTCTC -> CGTCT|CGTCTC); a signature-typed class still has exactly one structure occurrence
+            L = len(g.site)
+            border = max([k for k in range(1, L) if g.site[:k] == g.site[-k:]] or [0])
+            if border:
+                s2 = mods[0] + g.site[: L - border]
+                jobs.append((part_class(enz, "module", (ovs[0], ovs[1])), s2, "part-module-overlapping-site-copy"))
+                st.goal("generic:self-overlapping-site")
         for cls, s, label in jobs:
             check_record(st, "generic", cls, s, range(len(s)), (">>", "fresh"),
                          dict(family="generic", enz=enz, cls_kind=label, lens=lens, seq=s, cls=cls.__name__,
